@@ -80,23 +80,23 @@ func main() {
 	for _, sp := range fixedSyslogStreams() {
 		jobs = append(jobs, job{sp: sp, twoFlush: len(sp.data) <= 72})
 	}
-	nShort := c.N(300, 5000)
+	nShort := c.N(600, 5000)
 	for i := 0; i < nShort; i++ {
 		r := c.Rand("syslog-short", i)
 		maxLen := []int{40, 72, 100, 130, 160, 160}[r.Intn(6)]
 		jobs = append(jobs, job{sp: genSyslogStream(r, i, maxLen, r.Intn(4) == 0)})
 	}
-	nTwo := c.N(36, 500)
+	nTwo := c.N(72, 500)
 	for i := 0; i < nTwo; i++ {
 		r := c.Rand("syslog-twoflush", i)
 		jobs = append(jobs, job{sp: genSyslogStream(r, i, []int{66, 70, 72}[r.Intn(3)], i%3 != 2), twoFlush: true})
 	}
-	nCompact := c.N(200, 3000)
+	nCompact := c.N(400, 3000)
 	for i := 0; i < nCompact; i++ {
 		r := c.Rand("compact", i)
 		jobs = append(jobs, job{sp: genCompactStream(r, i, []int{10, 16, 24, 32, 40}[r.Intn(5)]), twoFlush: true, dense: true})
 	}
-	nLong := c.N(6000, 120000)
+	nLong := c.N(12000, 120000)
 	for i := 0; i < nLong; i++ {
 		r := c.Rand("syslog-long", i)
 		maxLen := []int{200, 400, 1000, 2000, 4000}[r.Intn(5)]
@@ -113,8 +113,8 @@ func main() {
 	go func() {
 		defer tcpWG.Done()
 		specs := []vkit.ChildSpec{
-			{Mode: "tcp", Tag: "tcp-small", Args: map[string]string{"cfg": "small", "n": strconv.Itoa(c.N(1500, 25000))}, Timeout: 20 * time.Minute},
-			{Mode: "tcp", Tag: "tcp-default", Args: map[string]string{"cfg": "default", "n": strconv.Itoa(c.N(400, 5000))}, Timeout: 20 * time.Minute},
+			{Mode: "tcp", Tag: "tcp-small", Args: map[string]string{"cfg": "small", "n": strconv.Itoa(c.N(2500, 25000))}, Timeout: 20 * time.Minute},
+			{Mode: "tcp", Tag: "tcp-default", Args: map[string]string{"cfg": "default", "n": strconv.Itoa(c.N(600, 5000))}, Timeout: 20 * time.Minute},
 		}
 		tcpRes = c.RunChildren(specs, 2)
 	}()
